@@ -12,6 +12,9 @@ Monitor (the property, independent of the Lean model):
 Correspondence: descriptor -> `Pkg` -> Lean `verify / runRule / walkCount / construct` via
 lean/Driver/C16.lean against the real per-rule results, callback counts and build outcome."""
 import copy
+import glob
+import json
+import os
 import signal
 
 from . import common
@@ -20,30 +23,38 @@ from . import c16_pkg as P
 LEAN_TARGETS = ['DawgieVerif.Model.CompliantIO']
 
 MANIFEST = dict(
-    text='Lean theorems over an executable model of tools.compliant (_verify, _walk as a regenerated '
-         'table of callback firings with their receiver variables, rule_01..rule_11, exceptions count as '
-         'failure): gate_exact (verify p = true <-> Compliant p for every abstract package p, where '
-         'Compliant states the architecture position by position without the control flow), one '
-         'rejection theorem per rule class (signature, base types, abstract methods, dotted names, '
-         'empty state vectors, module of previous, pickling, reference element types, missing state '
-         'vectors, moments, resolution), walk_well_scoped (no callback of the generated _walk table '
-         'reads a variable its branch does not bind), accepted_schedulable (no modelled failure point '
-         'of dag.Construct / schedule.build / periodics is reachable for an accepted package). Tied to '
-         'the code by a translator (rule names, Factories order, fargs, firing table, callbacks per rule, '
-         'rule_01 signature table) and by materialising every descriptor as a real package on disk and '
-         'running the real _scan/_verify/_walk/for_factories/Construct/build/periodics on it.',
-    note='Trusted: Lean kernel; tools/gen_c16.py; harness/c16_pkg.py, which implements the '
-         'descriptor<->package relation (Python import, inspect.signature, isinstance, pickle, the name '
-         'look-ups of rule_11 are modelled as flags of the descriptor, not verified). The gate cannot '
-         'observe whether run()/view()/features() are overridden (gate_blind_to_run states it); an '
-         'SV_REF/ALG_REF whose own item carries no keys expands to no value reference and resolves '
-         'vacuously (observed, counted, outside the descriptor space of the theorems); rule_10 checks '
-         'types, not ranges (dom/dow stay in range here, as in DESIGN 5.1). accepted_schedulable is stated '
-         'over this file\'s own minimal failure-point model of Construct/build, not over C09\'s DAG model; '
-         'termination of Construct._ancestry on acyclic inputs is C09\'s subject and is only exercised '
-         'here. Factories are assumed to forward `prefix` as the bot name.',
-    technique='Lean 4 proof (decision logic stated outright, case analysis over all packages, generated '
-              'tables closed by decide) + differential correspondence on materialised packages',
+    text='Lean theorems over an executable model of tools.compliant (_verify; _walk as a regenerated '
+         'table of callback calls with their enclosing loops and receiver variables; rule_01..rule_11; '
+         'any exception counts as failure; factories called with the arities of the source): gate_exact '
+         '(verify p = true <-> Compliant p for EVERY abstract package p, Compliant being the architecture '
+         'stated position by position without the gate\'s control flow), gate_exact_engine, one rejection '
+         'theorem per rule class (no factory, signature, raising factory, base types, abstract methods, '
+         'dotted names, empty state vectors, module of previous(), pickling, reference element types, '
+         'missing state vectors, moments, resolution), walk_well_scoped (every call of the generated _walk '
+         'table is made on the variable of the innermost enclosing loop: the repaired F-C16 site), '
+         'accepted_schedulable, gate_blind_to_run. Tie: translator (rule names, Factories order, fargs, '
+         'call table, callbacks per rule, rule_01 signature table, direct call arities) regenerated on '
+         'every run; every descriptor is written to disk as a real package (three factory styles, two '
+         'module layouts) and put through the real _scan/_verify (per-rule results), the real _walk '
+         '(callback counts) and, when accepted, the real for_factories + dag.Construct + '
+         'schedule.build/periodics; compared with the Lean model through the driver.',
+    note='Trusted: Lean kernel; tools/gen_c16.py; harness/c16_pkg.py, which IS the descriptor<->package '
+         'relation: Python import, inspect.signature, isinstance, pickle and the name look-ups of rule_11 '
+         'are flags of the abstract package computed from the descriptor (modelled, not verified). '
+         'Not observable by the gate and therefore not part of Compliant: whether run()/view()/features() '
+         'are overridden (rule_03\'s docstring promises all abstract methods; gate_blind_to_run proves '
+         'the model accepts such a package and the harness confirms it on the real gate); an SV_REF/ALG_REF '
+         'whose own item carries no keys expands to no value reference and resolves vacuously (run and '
+         'counted as a documented gap, outside the descriptor space). rule_10 checks types, not ranges: '
+         'dom/dow stay in range here (DESIGN 5.1). accepted_schedulable is stated over this check\'s own '
+         'minimal failure-point model of Construct/build/periodics, not over C09\'s DAG model; termination '
+         'of Construct._ancestry on acyclic inputs is C09\'s subject and is only exercised here (30 s '
+         'watchdog). Factories are assumed to forward `prefix` as the bot name (no rule checks it; a '
+         'factory that does not yields a graph whose dependants are never queued, without any exception). '
+         'With the registry scan pattern a module without any class deriving from '
+         'Algorithm/Analyzer/Regression is not part of the engine and is not verified (counted, no alarm).',
+    technique='Lean 4 proof (decision logic stated outright; case analysis over all packages; generated '
+              'tables closed by simp/decide) + differential correspondence on materialised packages',
     design='7/C16',
 )
 
@@ -76,11 +87,12 @@ GOOD_MOMENTS = [{'boot': 'T'}, {'boot': 'F'}, {'boot': 'T', 'time': 'ok'}, {'dow
                 {'dom': 'ok', 'time': 'ok'}, {'day': 'ok', 'time': 'ok'}]
 
 
-def gen_engine(r, ntasks=None, kinds_of=None, style=None, rich=True):
+def gen_engine(r, ntasks=None, kinds_of=None, style=None, rich=True, layout=None):
     """A random engine that follows every rule.  Inputs only point to routines created earlier
     (acyclic); feedback may point anywhere."""
     ntasks = ntasks or r.choice([1, 1, 2, 2, 3])
-    eng = P.mk_engine([], style=style or r.choice(['old', 'old', 'old', 'base', 'auto']))
+    eng = P.mk_engine([], style=style or r.choice(['old', 'old', 'old', 'base', 'auto']),
+                      layout=layout or r.choice(['flat', 'split']))
     auto = eng['style'] == 'auto'
     slots = []
     for ti in range(ntasks):
@@ -135,7 +147,8 @@ def corpus_engines():
     for mask in range(1, 16):
         ks = [k for i, k in enumerate(ALLKINDS) if mask >> i & 1]
         r = common.rng(mask, 'C16-corpus')
-        out.append(('subset:' + '+'.join(ks), gen_engine(r, 1, [ks], 'old', rich=False)))
+        out.append(('subset:' + '+'.join(ks), gen_engine(r, 1, [ks], 'old', rich=False,
+                                                         layout=['flat', 'split'][mask % 2])))
     r = common.rng(0, 'C16-corpus2')
     # regression with its own feedback, no analysis (the repaired wrong-variable site)
     a0 = P.mk_routine('alg0', svs=[P.mk_sv('sv0', ['k0', 'k1'])])
@@ -152,7 +165,7 @@ def corpus_engines():
     out.append(('analysis+regress feedback', P.mk_engine([
         P.mk_task('t0', {'task': P.mk_factory('task', P.mk_bot([copy.deepcopy(a0)]))}),
         P.mk_task('t1', {'analysis': P.mk_factory('analysis', P.mk_bot([an])),
-                         'regress': P.mk_factory('regress', P.mk_bot([rg2]))})])))
+                         'regress': P.mk_factory('regress', P.mk_bot([rg2]))})], layout='split')))
     # chain / diamond / cross-kind / prefix-named tasks
     for i in range(6):
         out.append(('shape%d' % i, gen_engine(common.rng(i, 'C16-shape'), 3, None, ['old', 'base', 'auto'][i % 3])))
@@ -512,6 +525,11 @@ def run(ctx, res):
                 'abstract package sent to the Lean model; non-trivial = the scanner found a package to verify')
     res.assumptions = list(TRUSTED)
     lines, pending = ['(compliant tables)'], [None]
+    # past failures first (corpus/C16/*.json: the inputs of F-C16)
+    for f in sorted(glob.glob(os.path.join(common.VERIF, 'corpus', 'C16', '*.json'))):
+        c = json.load(open(f))
+        run_case(res, c['engine'], c['expect'], 'corpus:' + os.path.basename(f)[:-5], lines, pending,
+                 cls=c.get('cls'), hit_task=c.get('task'))
     bases = corpus_engines()
     for tag, eng in bases:
         run_case(res, eng, 'compliant', tag, lines, pending)
